@@ -63,6 +63,20 @@ Proof.
   constructor; [exact I|]. constructor; [exact I|constructor].
 Qed.
 
+(* why [op_wf] asks for pairwise distinct keys: with a REPEATED key the local assembly loop counts one guardian twice.  Witness
+   (toy oracles): set [a; a] (quorum 2), the node (= a) observes a message and its single own signature is assembled at both
+   positions and published; [verify_sigs] (C06) refuses that VAA.  Guardian sets come from the governance contract, which is
+   trusted to hold distinct keys; the statement above quantifies over such sets, as the property does ("distinct members"). *)
+Example C01_repeated_key_is_counted_twice :
+  let ops := [SetGS {| keys := [ex_own; ex_own]; gidx := 3 |}; LocalMsg ex_msg; Loopback 0] in
+  let r := run ex_recover ex_keccak ex_sign ex_own 1 (repeat x00 32) init ops in
+  existsb (fun outs => existsb (fun x => match x with
+                                         | SendVAA b => match unmarshal b with
+                                                        | Ok v => (length (sigs v) =? 2)%nat && negb (verify_sigs ex_recover ex_keccak v [ex_own; ex_own])
+                                                        | Err _ => false end
+                                         | _ => false end) outs) (snd r) = true.
+Proof. vm_compute. reflexivity. Qed.
+
 Print Assumptions C01_every_published_vaa_is_quorum_valid.
 Print Assumptions C01_store_holds_only_quorum_valid_vaas.
 Print Assumptions C01_quorum_valid_means_distinct_members.
